@@ -249,6 +249,15 @@ class Harness:
             self.use_proxies = bool(self.monitors) or (gpu and sched.get('mode') == 'interleave') or bool(cfg.get('snapshots'))
             if cfg.get('snapshots'): mon.snap_cb = self.snapshot
             if gpu and 'block' in cfg: sim._block_dim = tuple(int(v) for v in cfg['block'])
+            if gpu and hasattr(sim, '_grid_dim'):
+                # the launch geometry the GPU path would use for levels / interfaces far larger than any simulated here
+                # (this sandbox cannot run a level of 10**6 operations, but can ask which grid it would get): every (lane, op) needs a thread
+                bd = sim._block_dim
+                for nx, ny in ((kw['sims'], 70000), (kw['sims'], 1200000), (70000, 5)):
+                    g = sim._grid_dim(nx, ny)
+                    if int(g[0]) * int(bd[0]) < int(nx) or int(g[1]) * int(bd[1]) < int(ny):
+                        res.violate('launch-grid-too-small', f'grid {tuple(int(v) for v in g)} x block {tuple(bd)} does not cover {int(nx)} lanes x {ny} operations: the threads beyond it never run')
+                        raise core.AbortRun(res)
             sc = cfg.get('simctl')
             if sc is not None:
                 sci = unwrap(sim.simctl_int)
@@ -472,7 +481,8 @@ class Harness:
                             mon.tag_prop[loc:loc + 4, :] = mon.prop_id
                     res.count('repeated_propagations')
                 af = self.case.get('argforms') or {}
-                if k: sim.c_prop(sims=typed_int(k, af.get('k')), seed=typed_int(seed, af.get('seed')))
+                if batch.get('k0') and not k: sim.c_prop(sims=typed_int(0, af.get('k')), seed=typed_int(seed, af.get('seed')))      # 'no restriction' spelled as 0
+                elif k: sim.c_prop(sims=typed_int(k, af.get('k')), seed=typed_int(seed, af.get('seed')))
                 else: sim.c_prop(seed=typed_int(seed, af.get('seed')))
         finally:
             self.in_prop = False
